@@ -13,7 +13,8 @@ Authentication (src/daemon/http/auth/authorizer.rs:255-300 and the three provide
 
 Password hashing is symbolic: `hex (scrypt (scrypt pw ("krill-lagosta-" ++ name)) salt)` is the
 term `⟨pw, name, salt⟩`; two hashes are equal iff the terms are (scrypt is assumed injective on the
-inputs of a run).
+inputs of a run).  What the configuration file *stores* as `password_hash` is an arbitrary string
+(`StoredHash`): nothing in `Config::verify` looks at it, and `login` compares strings.
 -/
 import KrillModel.Http.Role
 import KrillModel.Http.Session
@@ -28,9 +29,24 @@ structure HashTerm where
   salt : Nat
 deriving DecidableEq, Repr
 
+/-- The `password_hash` string of an `[auth_users]` entry.  `login` compares it, as a string, with
+the lower-case hex text of the 32-byte scrypt output it computes (`encoded_hash != user_password_hash`).
+
+* `term h`: the configured string is exactly the text `krillc config user` prints for the inputs
+  `h` (64 lower-case hex characters);
+* `junk s`: any other configured string `s` – one that is not the lower-case hex text of a 32-byte
+  value: wrong length (a locked account `"!"`, `""`, a hash that lost or gained a character in copy
+  and paste), characters that are not hex digits, or the *upper-case* hex of a real hash (krill
+  compares strings, so this does not match either).  Such a string equals no computed hash,
+  whatever the password. -/
+inductive StoredHash where
+  | term (h : HashTerm)
+  | junk (s : String)
+deriving DecidableEq, Repr
+
 /-- An entry of `[auth_users]`. -/
 structure UserEntry where
-  hash : HashTerm
+  hash : StoredHash
   salt : Nat
   role : String
 deriving DecidableEq, Repr
@@ -177,7 +193,9 @@ def loginConfigFile (norm : String → String) (cfg : Config) (st : SessState)
     match cfg.users.lookup name with
     | none => (.invalid, st)
     | some u =>
-      if (⟨pw, name, u.salt⟩ : HashTerm) ≠ u.hash then (.invalid, st) else
+      -- `encoded_hash != user_password_hash`: a comparison of strings; the computed text is the
+      -- hex of a hash term, which a `junk` string never is
+      if StoredHash.term ⟨pw, name, u.salt⟩ ≠ u.hash then (.invalid, st) else
       match cfg.roles.lookup u.role with
       | none => (.invalid, st)
       | some role =>
